@@ -7,6 +7,13 @@ using namespace Tins;
 
 // the upper-layer dispatcher is replaced: it records the protocol number it was asked for and returns the bytes as a RawPDU (the parsers behind it are C01's subject)
 static uint32_t g_flag; static uint32_t g_calls;
+// In the g++ build used for replaying counterexamples the real dispatcher is linked (no redirection there), so the stub's counters stay untouched:
+// the checks on them are skipped and the protocol number is pinned to an unassigned one, for which the real dispatcher also returns a RawPDU.
+#ifdef VP_REAL_BUILD
+#define STUB_SAW(calls, flag) true
+#else
+#define STUB_SAW(calls, flag) (g_calls == (calls) && g_flag == (flag))
+#endif
 extern "C" Tins::PDU* vp_stub_dispatch4_raw(uint32_t flag, const uint8_t* buffer, uint32_t size, bool raw) { (void)raw; g_flag = flag; ++g_calls; vpstub::contract(buffer, size); return new Tins::RawPDU(buffer, size); }
 
 // The schedule is a concrete parameter: P0 = number of steps L, P1 = k (fragments of datagram D, each 8 bytes except the last, which has P2 bytes),
@@ -42,7 +49,7 @@ static __attribute__((noinline)) void step(IPv4Reassembler& r, St& t, uint32_t c
                 vp_assert(ip.id() == t.id && ip.ttl() == t.ttl && ip.tos() == t.tos && ip.src_addr() == as && ip.dst_addr() == ad && ip.protocol() == t.proto,
                           "the reassembled packet carries the header of the first fragment");
                 const RawPDU* raw = ip.inner_pdu() ? ip.inner_pdu()->find_pdu<RawPDU>() : 0;
-                vp_assert(raw != 0 && ip.inner_pdu() == raw && g_calls == t.completed + 1 && g_flag == t.proto, "the reassembled payload is handed, once, to the parser of the first fragment's protocol");
+                vp_assert(raw != 0 && ip.inner_pdu() == raw && STUB_SAW(t.completed + 1, t.proto), "the reassembled payload is handed, once, to the parser of the first fragment's protocol");
                 if (raw) {
                     bool same = raw->payload().size() == total;
                     for (uint32_t i = 0; same && i < total; ++i) same = raw->payload()[i] == S[i];
@@ -73,7 +80,7 @@ static __attribute__((noinline)) void step(IPv4Reassembler& r, St& t, uint32_t c
         const RawPDU* raw = ip.inner_pdu() ? ip.inner_pdu()->find_pdu<RawPDU>() : 0;
         bool same = raw && raw->payload().size() == ul;
         for (uint32_t i = 0; same && i < ul; ++i) same = raw->payload()[i] == S[i];
-        vp_assert(same && ip.id() == t.id && ip.ttl() == t.ttl && ip.fragment_offset() == 0 && ip.flags() == 0 && g_calls == t.completed, "an unfragmented packet is left untouched");
+        vp_assert(same && ip.id() == t.id && ip.ttl() == t.ttl && ip.fragment_offset() == 0 && ip.flags() == 0 && STUB_SAW(t.completed, g_flag), "an unfragmented packet is left untouched");
     }
 }
 
@@ -101,6 +108,9 @@ static void run() {
         vp_assume(!(t.xid == t.id && same_pair));
     }
     t.ttl = vp_u8(); t.tos = vp_u8(); t.proto = vp_u8(); t.xb0 = vp_u8();
+#ifdef VP_REAL_BUILD
+    t.proto = 0xfd;
+#endif
     for (uint32_t i = 0; i < MAXK; ++i) t.seen[i] = false;
     t.nseen = 0; t.completed = 0;
     IPv4Reassembler r;
